@@ -726,6 +726,9 @@ func runC19(c *Cfg) {
 		}
 		rcs = append(rcs, &RouteCase{Family: "route-twins", Kind: "panicking-exec", Val: v - 1, Route: "option-vs-builder"})
 	}
+	for _, v := range []int{0, -2, 1, 5} {
+		rcs = append(rcs, &RouteCase{Family: "route-twins", Kind: "fallback-option-next-to-a-budget", Val: v, Route: "all"})
+	}
 	for _, via := range []string{"run", "flow"} {
 		rcs = append(rcs, &RouteCase{Family: "route-twins", Kind: "post-after-cancel-in-exec", Route: "option-vs-builder", Via: via})
 	}
